@@ -8,25 +8,27 @@ position words of the streams listed in it — while it scans the stream list (`
 or copies it (`a2`, `add_stream`).
 
 `SafeRun`: executions of `Core` from a fresh queue in which every step satisfies
-* `StepOK` — the hypotheses of the ring invariant (mode facts; F1/F12 regions excluded),
 * `LockStepOK` — a blocking `lock()` is taken only on a free mutex (mutexes are mutual exclusion),
 * `ELabelOK` — handle ownership: one thread per handle, one token per handle, the token is registered while
   the handle operates, only the last consumer of a registered stream removes it, the destructor runs when no
   other thread is inside a call. (Rust ownership + reference counting; not proved here — `_partial`.)
-Any number of threads, handles and streams; any interleaving at the granularity of single shared-memory
-operations; any number of reclamation cycles.
+Nothing is assumed about the ring: the registry facts the argument needs (`RegInv`, MQ/Inv/Reg*.lean) are proved
+for **every** execution, so the theorems also cover the regions of the open findings F1/F12, the removal of the
+last stream, and teardown. Any number of threads, handles and streams; any interleaving at the granularity of
+single shared-memory operations; any number of reclamation cycles. Both hypotheses are evaluated by the trace
+acceptor before every step of every real execution (`MQ/Model/Hyp.lean`, sound by `MQ/Inv/HypSound.lean`).
 -/
 namespace MQ
 
 /-- C16 (no use after free — partial, see header): in every reachable state, a writer that is about to read
 entry `i` of the stream list `p` it loaded — the list itself and the position block of the stream found there —
 reads live memory; so does `add_stream` when it copies the list it loaded. -/
-theorem C16_no_use_after_free_partial (N : Nat) (bcast : Bool) (wait : WaitK) (fut : Bool) (hN : 0 < N)
+theorem C16_no_use_after_free_partial (N : Nat) (bcast : Bool) (wait : WaitK) (fut : Bool)
     (ls : List Label) (σ : St) (r : SafeRun (init N bcast wait fut) ls σ) (t : Nat) :
     (∀ m h tl p i md, (σ.th t).pc = .g2 m h tl p i md →
         Obj.grp p ∉ σ.freed ∧ ∀ sid, sid ∈ σ.groups p → Obj.posO sid ∉ σ.freed) ∧
     (∀ c, (σ.th t).pc = .a2 c → Obj.grp c ∉ σ.freed) := by
-  have A := allInv_safeRun r (allInv_init N bcast wait fut hN)
+  have A := allInv_safeRun r (allInv_init N bcast wait fut)
   have L := A.e.loc t
   refine ⟨?_, ?_⟩
   · intro m h tl p i md hpc
@@ -39,22 +41,22 @@ theorem C16_no_use_after_free_partial (N : Nat) (bcast : Bool) (wait : WaitK) (f
 /-- C16 (what is retired stays unreachable — partial): a group that was passed to `free` is never the published
 list again, and a position block that was passed to `free` belongs to a stream that is in no published list —
 so no pointer to a retired object can be acquired after its retirement. -/
-theorem C16_retired_is_unreachable_partial (N : Nat) (bcast : Bool) (wait : WaitK) (fut : Bool) (hN : 0 < N)
+theorem C16_retired_is_unreachable_partial (N : Nat) (bcast : Bool) (wait : WaitK) (fut : Bool)
     (ls : List Label) (σ : St) (r : SafeRun (init N bcast wait fut) ls σ) :
     (∀ k, Obj.grp k ∈ σ.wtf ++ σ.tofree ++ σ.freed → k < σ.cur) ∧
     (∀ s, Obj.posO s ∈ σ.wtf ++ σ.tofree ++ σ.freed → s ∉ σ.groups σ.cur) := by
-  have A := allInv_safeRun r (allInv_init N bcast wait fut hN)
+  have A := allInv_safeRun r (allInv_init N bcast wait fut)
   exact ⟨fun k hk => A.e.pipeG k hk, fun s hs => (A.e.pipeP s hs).2⟩
 
 /-- C16 (the epoch argument — partial): at the moment the scan of the token vector completes and the pending
 batch is about to be released, no other thread holds a group of that batch or the position block of a stream
 listed in a group it holds. -/
-theorem C16_release_only_when_unheld_partial (N : Nat) (bcast : Bool) (wait : WaitK) (fut : Bool) (hN : 0 < N)
+theorem C16_release_only_when_unheld_partial (N : Nat) (bcast : Bool) (wait : WaitK) (fut : Bool)
     (ls : List Label) (σ : St) (r : SafeRun (init N bcast wait fut) ls σ) (x u : Nat) (k : MK) (e i p : Nat)
     (hpc : (σ.th x).pc = .f4 k e i) (hv : σ.tokv (σ.toks.getD i 0) = e) (hlast : ¬ i + 1 < σ.toks.length)
     (hu : u ≠ x) (hp : (σ.th u).pc.holdG = some p) :
     Obj.grp p ∉ σ.tofree ∧ ∀ sid, sid ∈ σ.groups p → Obj.posO sid ∉ σ.tofree := by
-  have A := allInv_safeRun r (allInv_init N bcast wait fut hN)
+  have A := allInv_safeRun r (allInv_init N bcast wait fut)
   have L := A.e.loc u
   have hf : holdFacts σ (tokOf σ u) p := by
     cases hq : (σ.th u).pc <;> rw [hq] at hp <;> simp only [PC.holdG] at hp <;> (try (cases hp; done))
